@@ -168,7 +168,7 @@ static void mk_expect(void) {
 }
 
 void h_WrXErrorPos(void) {
-    int num, cnt_num, cnt_wit, len;
+    int num, cnt_num, cnt_wit, len; LongInt jmp0;
     mk_env();
     mk_expect();
     VND(num, int);
@@ -176,10 +176,17 @@ void h_WrXErrorPos(void) {
     VND(gk_num, int);
     VASSUME(gk_num >= 0 && gk_num <= 65535);
     VND(SuppWarns, uchar); VND(NumericErrors, uchar); VND(Repass, uchar); VND(JmpErrors, int);
-    VASSUME(JmpErrors >= 0 && JmpErrors < 1000000);
+    VASSUME(JmpErrors >= 0 && JmpErrors < 32767); /* assumed: fewer than 32767 jump-distance errors per pass (16-bit counter) */
     cnt_num = count_expect(num); cnt_wit = count_expect(gk_num); len = len_expect();
     g_fatal_expected = (num >= 10000) || MaxErrors;
+    /* jump-distance errors that may vanish in the next pass are remembered in JmpErrors so that
+     * the symbol table can take them back (ErrorCount -= JmpErrors): never more than were counted */
+    VASSUME((unsigned long)(long)JmpErrors <= ErrorCount);
+    jmp0 = JmpErrors;
     WrXErrorPos((tErrorNum)num, NULL, NULL);
+    VPOST(JmpErrors >= 0 && (unsigned long)(long)JmpErrors <= ErrorCount, "C02: no more jump errors are set aside than errors were counted (ErrorCount -= JmpErrors cannot underflow)");
+    VPOST(JmpErrors == jmp0 || (JmpErrors == jmp0 + 1 && ErrorCount == g_o_errc + 1 && !Repass && (num == ErrNum_TargOnDiffPage || num == ErrNum_JmpDistTooBig)),
+          "C02: only a reported jump-distance error of a pass that is still final is set aside");
     if (cnt_num > 0) {
         VPOST(ErrorCount == g_o_errc && WarnCount == g_o_warnc, "C20: an announced (EXPECTed) message is suppressed");
         VPOST(count_expect(num) == cnt_num - 1 && len_expect() == len - 1, "C20: an occurring message consumes exactly one announcement");
